@@ -122,7 +122,8 @@ func TestC12(t *testing.T) {
 		"sibling-owned interface, 0, unknown} x ConsIngress {0, 9} x SrcIA x DstIA in {local, neighbour behind ConsEgress, another neighbour, " +
 		"third, neighbour's AS number in another ISD}^2 x first-hop MAC {valid, 12 bit flips, other key, over wrong SegID/timestamp/ExpTime/" +
 		"egress/ingress, swapped, zero} x ConsDir x {single, multi BR} x 2 keys (thorough: x 5 SegID/ExpTime/timestamp settings incl. expired and future); (B) one-hop packets from outside: every own interface x " +
-		"SrcIA x DstIA (same 5 classes)^2 x ConsDir x first-hop ConsEgress {77, 0, receiving interface, another own interface} x pre-filled second hop {zero, garbage} x destination " +
+		"SrcIA x DstIA (same 5 classes + local AS number in another ISD)^2 x ConsDir x first-hop ConsEgress {77, 0, receiving interface, another own interface, sibling-owned interface} x first-hop MAC {foreign, " +
+		"hop field genuinely issued by this AS and replayed by an outsider: valid for the carried SegID / carried with the on-wire SegID} x pre-filled second hop {zero, garbage} x destination " +
 		"host {IPv4, IPv6, registered SVC, unregistered SVC} x SegID x ExpTime; (C) full walk through two real routers (neighbour AS with its " +
 		"own key): send, complete, reverse (clean-room reversal and onehop.Path.Reverse), send back, deliver; (D) the real bfdSend output " +
 		"inspected and fed to the peer router. distinct key = part+all parameters; non-trivial = all"
@@ -329,76 +330,99 @@ func TestC12(t *testing.T) {
 						if j.x == 6 {
 							otherIf = 1
 						}
-						for _, feg := range []uint16{77, 0, j.x, otherIf} {
+						fegs := []uint16{77, 0, j.x, otherIf}
+						if j.multi {
+							fegs = append(fegs, 11) // an interface owned by a sibling router
+						}
+						for _, feg := range fegs {
 							for pre := 0; pre < 2; pre++ {
 								for _, h := range hostsB {
 									for _, segID := range []uint16{0x0000, 0xbeef} {
 										for _, exp := range []uint8{0, 63, 255} {
-											o := c12OHP{src: src, dst: dst, srcH: rtr.V4("172.16.9.9"), dstH: h.h, consDir: cd, segID: segID, ts: now - 10,
-												first: rtr.Hop{In: 0, Eg: feg, Exp: exp, Mac: [6]byte{0x0f, 0x1e, 0x2d, 0x3c, 0x4b, 0x5a}}, l4: rtr.L4UDP}
-											if pre == 1 {
-												o.second = &garbage
-											}
-											p := o.pkt()
-											raw, lay := p.Serialize()
-											res := rt.Process(raw, rtr.FromExt(j.x))
-											k := fmt.Sprintf("B|m%v|k%x|if%d|s%d|d%d|cd%v|feg%d|pre%d|%s|sid%x|exp%d", j.multi, j.key[0], j.x, si, di, cd, feg, pre, h.name, segID, exp)
-											r.Case(k, true)
-											detail := func() map[string]any {
-												return map[string]any{"case": k, "receiving_interface": j.x, "neighbour": nbr.String(), "src_ia": src.String(),
-													"dst_ia": dst.String(), "disp": dispName(res.Fast.Disp), "egress": res.Fast.Egress,
-													"packet": fmt.Sprintf("%x", raw), "out": fmt.Sprintf("%x", res.Out)}
-											}
-											if res.Panic != nil {
-												d := detail()
-												d["panic"] = fmt.Sprint(res.Panic)
-												r.Violation("panic:ohp-from-outside", d)
-												rt.VerifStart()
-												continue
-											}
-											var why []string
-											if dst != local {
-												why = append(why, "dst-not-local")
-											}
-											if src != nbr {
-												why = append(why, "src-not-neighbour-of-receiving-interface")
-											}
-											fwd := res.Fast.Disp == router.VerifForward
-											if len(why) > 0 {
-												if fwd {
-													r.Violation("accepted-despite:"+fmt.Sprint(why), detail())
-												} else {
-													r.Outcome("not-accepted:" + fmt.Sprint(len(why)) + "-reasons")
+											// first-hop MAC: foreign (what a neighbour's own hop looks like here), or a hop field this AS
+											// genuinely issued and an outsider replays: valid for the SegID as carried, or carried with the
+											// SegID as it looks on the wire after the issuing router chained the MAC into it
+											for fm, fmName := range []string{"foreign", "replayed-own-hop", "replayed-own-hop-wire-segid"} {
+												if fm > 0 && (pre == 1 || h.name == "v6" || h.name == "svc-cs-multicast" || exp == 0) {
+													continue // the replay dimension is crossed with the addressing dimensions, not with all fillers
 												}
-												continue
-											}
-											if !fwd {
-												if cd && h.ok {
-													harness("valid incoming one-hop packet not accepted: %v", detail())
-												} else {
-													r.Outcome("not-accepted:" + map[bool]string{true: "unresolvable-destination", false: "against-construction-direction"}[cd])
+												o := c12OHP{src: src, dst: dst, srcH: rtr.V4("172.16.9.9"), dstH: h.h, consDir: cd, segID: segID, ts: now - 10,
+													first: rtr.Hop{In: 0, Eg: feg, Exp: exp, Mac: [6]byte{0x0f, 0x1e, 0x2d, 0x3c, 0x4b, 0x5a}}, l4: rtr.L4UDP}
+												if fm > 0 {
+													full := rtr.FullHopMAC(j.key, segID, o.ts, exp, 0, feg)
+													copy(o.first.Mac[:], full[:6])
+													if fm == 2 {
+														o.segID = segID ^ binary.BigEndian.Uint16(full[:2])
+													}
 												}
-												continue
+												if pre == 1 {
+													o.second = &garbage
+												}
+												p := o.pkt()
+												raw, lay := p.Serialize()
+												res := rt.Process(raw, rtr.FromExt(j.x))
+												k := fmt.Sprintf("B|m%v|k%x|if%d|s%d|d%d|cd%v|feg%d|pre%d|%s|sid%x|exp%d|%s", j.multi, j.key[0], j.x, si, di, cd, feg, pre, h.name, segID, exp, fmName)
+												r.Case(k, true)
+												detail := func() map[string]any {
+													return map[string]any{"case": k, "receiving_interface": j.x, "neighbour": nbr.String(), "src_ia": src.String(),
+														"dst_ia": dst.String(), "disp": dispName(res.Fast.Disp), "egress": res.Fast.Egress,
+														"packet": fmt.Sprintf("%x", raw), "out": fmt.Sprintf("%x", res.Out)}
+												}
+												if res.Panic != nil {
+													d := detail()
+													d["panic"] = fmt.Sprint(res.Panic)
+													r.Violation("panic:ohp-from-outside", d)
+													rt.VerifStart()
+													continue
+												}
+												var why []string
+												if dst != local {
+													why = append(why, "dst-not-local")
+												}
+												if src != nbr {
+													why = append(why, "src-not-neighbour-of-receiving-interface")
+												}
+												fwd := res.Fast.Disp == router.VerifForward
+												if len(why) > 0 {
+													if fwd && res.Fast.Egress != 0 {
+														d := detail()
+														d["first_hop_mac"], d["first_hop_cons_egress"] = fmName, feg
+														r.Violation("one-hop-packet-from-outside-sent-out-of-the-AS:"+fmt.Sprint(why), d)
+													} else if fwd {
+														r.Violation("accepted-despite:"+fmt.Sprint(why), detail())
+													} else {
+														r.Outcome("not-accepted:" + fmt.Sprint(len(why)) + "-reasons")
+													}
+													continue
+												}
+												if !fwd {
+													if cd && h.ok {
+														harness("valid incoming one-hop packet not accepted: %v", detail())
+													} else {
+														r.Outcome("not-accepted:" + map[bool]string{true: "unresolvable-destination", false: "against-construction-direction"}[cd])
+													}
+													continue
+												}
+												// accepted: delivered towards the destination host, second hop completed exactly as specified
+												if res.Fast.Egress != 0 || res.Fast.Remote == nil || !res.Fast.Remote.IP.Equal(netip.MustParseAddr(h.ip).AsSlice()) {
+													r.Violation("accepted-but-not-delivered-to-destination", detail())
+													continue
+												}
+												want := append([]byte{}, raw...)
+												full := rtr.FullHopMAC(j.key, o.segID, o.ts, exp, j.x, 0)
+												sh := want[lay.HopOff[1] : lay.HopOff[1]+12]
+												copy(sh, make([]byte, 12))
+												sh[1] = exp
+												binary.BigEndian.PutUint16(sh[2:], j.x)
+												copy(sh[6:], full[:6])
+												if !bytes.Equal(res.Out, want) {
+													d := detail()
+													d["want"] = fmt.Sprintf("%x", want)
+													r.Violation("completed-packet-unexpected", d)
+													continue
+												}
+												r.Outcome("accepted-and-completed")
 											}
-											// accepted: delivered towards the destination host, second hop completed exactly as specified
-											if res.Fast.Egress != 0 || res.Fast.Remote == nil || !res.Fast.Remote.IP.Equal(netip.MustParseAddr(h.ip).AsSlice()) {
-												r.Violation("accepted-but-not-delivered-to-destination", detail())
-												continue
-											}
-											want := append([]byte{}, raw...)
-											full := rtr.FullHopMAC(j.key, segID, o.ts, exp, j.x, 0)
-											sh := want[lay.HopOff[1] : lay.HopOff[1]+12]
-											copy(sh, make([]byte, 12))
-											sh[1] = exp
-											binary.BigEndian.PutUint16(sh[2:], j.x)
-											copy(sh[6:], full[:6])
-											if !bytes.Equal(res.Out, want) {
-												d := detail()
-												d["want"] = fmt.Sprintf("%x", want)
-												r.Violation("completed-packet-unexpected", d)
-												continue
-											}
-											r.Outcome("accepted-and-completed")
 										}
 									}
 								}
